@@ -87,6 +87,22 @@ def layout(text, t):
             else:
                 out.append(ch)
     res = "".join(out)
+    if t.chance(1, 3):
+        # characters that str.splitlines() treats as line boundaries but a text file does not (form feed, VT, FS/GS/RS,
+        # NEL, LS, PS): inside a comment they are comment text, outside they are blanks
+        exotic = ["\x0c", "\x0b", "\x1c", "\x1d", "\x1e", "\x85", "\u2028", "\u2029"][t.draw(8)]
+        body = f" ; page{exotic}break ) (stray\n"
+        i = res.find("(")
+        j = res.find("\n", i) if t.chance(1, 2) else -1
+        if j >= 0 and not in_comment(res, j):
+            res = res[:j] + body + res[j + 1:]
+        else:
+            res = res + "\n" + body
+        if t.chance(1, 4):
+            k = res.find(" ")
+            if k >= 0 and not in_comment(res, k):
+                res = res[:k] + exotic + res[k + 1:]
+        flags.add("exotic-separator")
     if t.chance(1, 5):
         res = "; header (with parens and ünicode\n" + res
         flags.add("comment")
